@@ -106,7 +106,8 @@ NullQuick == {<<2, 1, 2>>}
 RgThorough == <<2, 2>>
 NullThorough == {<<2, 1, 2, 0>>}
 OffQuick == {-1, 0, 1, 4}
-OffThorough == {-1, 0, 1, 3, 5}
+OffThorough == {-1, 1, 3}
+LimThorough == {-1, 0, 2}
 LimAll == {-1, 0, 1, 2}
 
 S1_Prefix == phase \in {"read", "done"} => IsPrefix(out, Expected(RgRows, cfg))
